@@ -1,7 +1,7 @@
 """C02 / C01 / C10: picture_parse, fragments, reset_state, parse_sequence, parse_stream."""
 from pyvc.api import *
 from contracts.c02_common import *
-from contracts.c02_stream import FRAME_IO, IO_POST, is_parse_code, seq_keys_consistent  # noqa: F401
+from contracts.c02_stream import lcv_ok, FRAME_IO, IO_POST, is_parse_code, seq_keys_consistent  # noqa: F401
 from contracts.c02_sequence_header import coding_params_known, hdr_known, vp_full  # noqa: F401
 from contracts.c02_picture import ld_code, hq_code, qm_shape, tp_known, wavelet_known, slices_known, TP_MOD, TP_KEYS  # noqa: F401
 from contracts.c02_transform_data import slice_ctx, transforms_ok, FRAME_IOB  # noqa: F401
@@ -80,7 +80,7 @@ def frag_ok(state):
                         and state["fragment_slices_received"] + r == state["slices_x"] * state["slices_y"]
                         and has(state, "_picture_initial_fragment_offset") and has(state, "_last_picture_number")
                         and has(state, "_last_picture_number_offset") and has(state, "fragmented_picture_done") and not state["fragmented_picture_done"]
-                        and has(state, "_level_constrained_values")))
+                        and lcv_ok(state)))
 
 
 FRAG_PRE = PIC_PRE + ["frag_ok(state)"]
@@ -125,7 +125,7 @@ class _fd:
                            'state["fragment_slice_count"] <= state["_fragment_slices_remaining"]',
                            'has(state, "fragment_x_offset") and has(state, "fragment_y_offset")',
                            'state["fragment_y_offset"] * state["slices_x"] + state["fragment_x_offset"] == state["fragment_slices_received"]']
-    modifies = FRAME_IOB + ['state["_level_constrained_values"]', 'state["quantizer"]', "all_grids()", 'state["fragment_slices_received"]',
+    modifies = FRAME_IOB + ['state["_level_constrained_values"]', "state.g_lcv_level", 'state["quantizer"]', "all_grids()", 'state["fragment_slices_received"]',
                             'state["_fragment_slices_remaining"]', 'state["fragmented_picture_done"]']
     raises = {"ConformanceError": None}
     ensures = IO_POST + ["hdr_known(state)", "frag_ok(state)", "slice_ctx(state)", 'has(state, "fragmented_picture_done")',
@@ -151,3 +151,127 @@ class _fp:
     raises = {"ConformanceError": None}
     ensures = IO_POST + ["hdr_known(state)", "numbering_ok(state)", "frag_ok(state)", 'has(state, "fragmented_picture_done")',
                          'implies(state["fragmented_picture_done"], slice_ctx(state) and has(state, "picture_number"))']
+
+
+# ---- reset_state / parse_sequence / parse_stream ---------------------------------------------------------------
+
+from vc2_conformance.pseudocode.state import State, retained_state_fields  # noqa: E402
+
+ALL_KEYS = list(State.entry_objs.keys())
+# C10 (from the property statement, not from the code): nothing but the I/O position, the file and the output
+# callback may carry over from one sequence to the next
+CARRIED_OVER = ["_output_picture_callback", "next_bit", "current_byte", "_file", "_recorded_bytes"]
+NON_RETAINED = [k for k in ALL_KEYS if k not in CARRIED_OVER]
+
+
+@spec(ST + "reset_state")
+class _reset:
+    args = {"state": STATE}
+    requires = []
+    modifies = ['state["%s"]' % k for k in NON_RETAINED]
+    raises = {}
+    # everything that is not retained is gone; retained entries are untouched (frame)
+    ensures = ["not has(state, %r)" % k for k in NON_RETAINED]
+
+
+@inline
+def seq_progress(state):
+    """Either a sequence header has been parsed in this sequence, or we are looking at the very first data unit, which is one."""
+    return ((hdr_known(state) and has(state, "video_parameters"))
+            or (state["_generic_sequence_matcher"].m_count == 1 and state["parse_code"] == 0x00 and not has(state, "profile")
+                and not has(state, "_level_sequence_matcher") and not has(state, "_last_sequence_header_bytes")
+                and not has(state, "_last_sequence_header_offset") and state["_fragment_slices_remaining"] == 0
+                and not has(state, "_last_picture_number") and not has(state, "_last_picture_number_offset")))
+
+
+@inline
+def frag_a(state):
+    return has(state, "_fragment_slices_remaining") and state["_fragment_slices_remaining"] >= 0
+
+
+@inline
+def pic_or_frag(pc):
+    return ld_code(pc) or hq_code(pc)
+
+
+@inline
+def cls_link(state):
+    """(C.2.2, checked by parse_info) picture and fragment parse codes are of the class the profile allows."""
+    return implies(has(state, "profile") and pic_or_frag(state["parse_code"]), ld_code(state["parse_code"]) == (state["profile"] == 0))
+
+
+@inline
+def slices_known_p(state):
+    """slices_known, with the slice-parameter class taken from the profile instead of the current parse code."""
+    return (has(state, "slices_x") and has(state, "slices_y") and state["slices_x"] >= 1 and state["slices_y"] >= 1
+            and implies(state["profile"] == 0, has(state, "slice_bytes_numerator") and has(state, "slice_bytes_denominator")
+                        and state["slice_bytes_denominator"] >= 1 and state["slice_bytes_numerator"] >= state["slice_bytes_denominator"])
+            and implies(state["profile"] == 3, has(state, "slice_prefix_bytes") and has(state, "slice_size_scaler")
+                        and state["slice_prefix_bytes"] >= 0 and state["slice_size_scaler"] >= 1))
+
+
+@inline
+def frag_b(state):
+    return implies(state["_fragment_slices_remaining"] > 0,
+                   wavelet_known(state) and slices_known_p(state) and has(state, "quant_matrix")
+                   and qm_shape(state["quant_matrix"], state["dwt_depth"], state["dwt_depth_ho"]))
+
+
+@inline
+def frag_c(state):
+    return implies(state["_fragment_slices_remaining"] > 0, transforms_ok(state))
+
+
+@inline
+def frag_d(state):
+    r = state["_fragment_slices_remaining"]
+    return implies(r > 0, has(state, "fragment_slices_received") and state["fragment_slices_received"] >= 0
+                   and state["fragment_slices_received"] + r == state["slices_x"] * state["slices_y"]
+                   and has(state, "_picture_initial_fragment_offset") and has(state, "_last_picture_number")
+                   and has(state, "_last_picture_number_offset") and has(state, "fragmented_picture_done") and not state["fragmented_picture_done"]
+                   and lcv_ok(state) and hdr_known(state))
+
+
+SEQ_INV = ["dinv(state)", 'not has(state, "_recorded_bytes")', "seq_keys_consistent(state)", 'has(state, "next_parse_offset")',
+           'is_fresh(state["_generic_sequence_matcher"])',
+           'implies(has(state, "_level_sequence_matcher"), is_fresh(state["_level_sequence_matcher"]))',
+           'has(state, "parse_code") and is_parse_code(state["parse_code"])', "numbering_ok(state)",
+           "frag_a(state)", "frag_b(state)", "frag_c(state)", "frag_d(state)", "seq_progress(state)", "cls_link(state)",
+           'implies(state["parse_code"] == 0x10, state["next_parse_offset"] == 0)',
+           'has(state, "_expected_major_version")', 'has(state, "_last_sequence_header_bytes") == has(state, "_last_sequence_header_offset")',
+           'state["next_bit"] == 7']
+
+
+@spec(S_ + "parse_sequence")
+class _pseq:
+    args = {"state": STATE}
+    # C10: nothing but the I/O part of the state is required - every other entry is either removed by reset_state
+    # or written before it is read within this call
+    requires = ["dinv(state)", 'not has(state, "_recorded_bytes")']
+    modifies = ['state["%s"]' % k for k in ALL_KEYS if k not in ("_output_picture_callback", "_file")] + [
+        'state["_file"].fpos', "all_grids()", "state.g_lcv_level"]
+    raises = {"ConformanceError": None}
+    ensures = ["dinv(state)", 'not has(state, "_recorded_bytes")',
+               # C01: what every accepted sequence satisfies (necessary conditions of acceptance, from the property statement)
+               'has(state, "parse_code") and state["parse_code"] == 0x10',                      # ends with an end-of-sequence data unit
+               "hdr_known(state)",                                                               # ... and contained a sequence header (which came first)
+               'has(state, "_fragment_slices_remaining") and state["_fragment_slices_remaining"] == 0',  # fragmented pictures complete
+               'implies(state["picture_coding_mode"] == 1, state["_num_pictures_in_sequence"] % 2 == 0)',  # whole frames
+               'state["next_parse_offset"] == 0',                                                 # end of sequence has no next offset
+               ]
+    invariants = {1: SEQ_INV + ['existing_unchanged("val_m_count")', 'existing_unchanged("elem")', 'existing_unchanged("len")']}
+    split_loops = [1]
+
+
+@spec(S_ + "parse_stream")
+class _pstream:
+    args = {"state": STATE}
+    requires = ["dinv(state)", 'not has(state, "_recorded_bytes")']
+    modifies = ['state["%s"]' % k for k in ALL_KEYS if k not in ("_output_picture_callback", "_file")] + [
+        'state["_file"].fpos', "all_grids()", "state.g_lcv_level"]
+    raises = {"ConformanceError": None}
+    ensures = ["dinv(state)", "dpos(state) == nbits_total(state)"]
+    invariants = {1: ["dinv(state)", 'not has(state, "_recorded_bytes")']}
+
+
+from contracts.c02_corpus import MONITOR_DRIVER  # noqa: E402,F401  (native fallback: run-time monitoring over corpus streams)
